@@ -707,3 +707,5 @@ PROPS["C15"]["explanation"] += (" System level (Props/SysMerkle.lean): in the mo
                                 "(sha3 is abstract) C15 holds for every execution: same node set => same state, read = heads, a node becomes visible exactly when all its ancestors (which ARE in the log) have arrived, a complete replica has no orphans. "
                                 "The clause 'writing on top of the heads read replaces them' needs 'no received node lists the new node as a child' – false in general when another site created the same node earlier (write_not_sole_head, kernel-checked; content addressing) "
                                 "– true for a genuinely new node (run_write_replaces_heads_new).")
+
+PROPS["C19"]["oracle_fields"] = PROPS["C19"]["oracle_fields"] + ["restore"]
